@@ -2,7 +2,8 @@
    semantics).  Statements only; every proof is `exact <lemma>` followed by Print Assumptions.
    Model: Model/Type2.v (the interpreter, after the Rust), specification: Model/Type2Spec.v
    (Technical Note #5177: operators defined by their expansion into rmoveto/rlineto/rrcurveto). *)
-From AV Require Import Base.Prelude Gen.Type2Consts Model.Type2 Model.Type2Spec Proofs.Type2Proofs.
+From AV Require Import Base.Prelude Gen.Type2Consts Model.Type2 Model.Type2Spec Proofs.Type2Proofs
+  Model.SeacSpec Proofs.SeacProofs.
 Open Scope Z_scope.
 
 (* 1. The dispatch tables regenerated from the source (operator byte -> VisitOp -> parse function)
@@ -211,6 +212,99 @@ Theorem C18_blend_exact_partial : forall sc ds, Forall (fun d => d mod SDEN = 0)
 Proof. exact dot_is_exact. Qed.
 Print Assumptions C18_blend_exact_partial.
 
+(* 11. seac composition (the four / five operand form of endchar) and the charset it goes through.
+       A charset is the list of the SIDs of glyph 1, glyph 2, ... (Model/SeacSpec.v); a range
+       (first, nLeft) of the formats 1 and 2 stands for the nLeft + 1 SIDs first .. first + nLeft.
+       For ALL range lists (unsigned fields, at most 65534 glyphs listed) and all SIDs, in debug
+       and release arithmetic: the lookup finds the SID in the first range with
+       first <= sid <= first + nLeft, at the glyph id 1 + (glyphs of the ranges in front) +
+       (sid - first); it finds nothing iff no range holds the SID. *)
+Theorem C18_charset_range_found : forall m pre f n post sid,
+  ranges_wf (pre ++ (f, n) :: post) -> len (ranges_sids (pre ++ (f, n) :: post)) <= 65534 ->
+  (forall r, In r pre -> ~ in_range r sid) ->
+  f <= sid <= f + n ->
+  gid_for_sid_in_ranges m (pre ++ (f, n) :: post) sid CHARSET_FIRST_GID =
+  COk (Some (1 + len (ranges_sids pre) + (sid - f))).
+Proof. exact range_lookup_found. Qed.
+Print Assumptions C18_charset_range_found.
+
+Theorem C18_charset_range_not_found : forall m rs sid,
+  ranges_wf rs -> len (ranges_sids rs) <= 65534 ->
+  (forall r, In r rs -> ~ in_range r sid) ->
+  gid_for_sid_in_ranges m rs sid CHARSET_FIRST_GID = COk None.
+Proof. exact range_lookup_none. Qed.
+Print Assumptions C18_charset_range_not_found.
+
+Theorem C18_charset_range_found_iff : forall m rs sid,
+  ranges_wf rs -> len (ranges_sids rs) <= 65534 ->
+  (exists g, gid_for_sid_in_ranges m rs sid CHARSET_FIRST_GID = COk (Some g)) <->
+  (exists f n, In (f, n) rs /\ f <= sid <= f + n).
+Proof. exact range_lookup_iff. Qed.
+Print Assumptions C18_charset_range_found_iff.
+
+(* Charset::sid_to_gid on every custom charset (format 0, 1 or 2) never panics and is the inverse of
+   the glyph -> SID list: it returns g iff g is the glyph the name designates (.notdef for SID 0,
+   else the first glyph carrying the SID), and None iff no glyph carries it; a range list and the
+   format 0 list it abbreviates are interchangeable. *)
+Theorem C18_charset_lookup_is_inverse : forall m cs names sid,
+  (exists sids, cs = CsCustom sids) \/ (exists rs, cs = CsRanges rs) ->
+  charset_names cs = Some names -> charset_wf cs ->
+  exists o, charset_sid_to_gid m cs sid = COk o /\
+            (forall g, o = Some g <-> names_glyph names sid g) /\
+            (o = None <-> sid <> 0 /\ ~ In sid names).
+Proof. exact charset_sid_to_gid_spec. Qed.
+Print Assumptions C18_charset_lookup_is_inverse.
+
+Theorem C18_charset_formats_equal : forall m rs sid,
+  ranges_wf rs -> len (ranges_sids rs) <= 65534 ->
+  charset_sid_to_gid m (CsRanges rs) sid = charset_sid_to_gid m (CsCustom (ranges_sids rs)) sid.
+Proof. exact charset_formats_equal. Qed.
+Print Assumptions C18_charset_formats_equal.
+
+(* the STANDARD_ENCODING array regenerated from the source is the table of the specification *)
+Theorem C18_standard_encoding_table : forall c, 0 <= c <= 255 ->
+  nthZ STANDARD_ENCODING c = std_sid_spec c.
+Proof. exact standard_encoding_table. Qed.
+Print Assumptions C18_standard_encoding_table.
+
+(* The accented glyph `[width] adx ady bchar achar endchar` (operands in any encoding) of a CFF font
+   whose charset is ISOAdobe or custom in format 0, 1 or 2, where the standard names of the codes
+   bchar and achar designate the glyphs bg and ag and these are plain well-formed glyphs (own
+   width, hints, masks, any operator forms): the sink receives the path of the base followed by
+   the path of the accent displaced by (adx, ady); Ok unless a coordinate leaves the i16 range. *)
+Theorem C18_seac_spec : forall e w wb nadx nady nb na adx ady bchar achar names bg ag
+                               bytesb wbs opsb bytesa was opsa,
+  e_kind e = KCFF ->
+  nth_opt (e_glyphs e) (e_gid e) = Some (wb ++ nadx ++ nady ++ nb ++ na ++ [14]) ->
+  enc_width w wb ->
+  encodes nadx adx -> encodes nady ady -> encodes nb (of_int bchar) -> encodes na (of_int achar) ->
+  0 <= bchar <= 255 -> 0 <= achar <= 255 ->
+  charset_names (e_charset e) = Some names -> charset_wf (e_charset e) ->
+  names_glyph names (nthZ STANDARD_ENCODING bchar) bg ->
+  names_glyph names (nthZ STANDARD_ENCODING achar) ag ->
+  nth_opt (e_glyphs e) bg = Some bytesb -> glyph_bytes wbs opsb bytesb ->
+  nth_opt (e_glyphs e) ag = Some bytesa -> glyph_bytes was opsa bytesa ->
+  exists s, interp_glyph e = COk s /\ out s = seac_path adx ady opsb opsa.
+Proof. exact seac_spec. Qed.
+Print Assumptions C18_seac_spec.
+
+Theorem C18_run_glyph_seac_spec : forall e w wb nadx nady nb na adx ady bchar achar names bg ag
+                                         bytesb wbs opsb bytesa was opsa,
+  e_kind e = KCFF ->
+  nth_opt (e_glyphs e) (e_gid e) = Some (wb ++ nadx ++ nady ++ nb ++ na ++ [14]) ->
+  enc_width w wb ->
+  encodes nadx adx -> encodes nady ady -> encodes nb (of_int bchar) -> encodes na (of_int achar) ->
+  0 <= bchar <= 255 -> 0 <= achar <= 255 ->
+  charset_names (e_charset e) = Some names -> charset_wf (e_charset e) ->
+  names_glyph names (nthZ STANDARD_ENCODING bchar) bg ->
+  names_glyph names (nthZ STANDARD_ENCODING achar) ag ->
+  nth_opt (e_glyphs e) bg = Some bytesb -> glyph_bytes wbs opsb bytesb ->
+  nth_opt (e_glyphs e) ag = Some bytesa -> glyph_bytes was opsa bytesa ->
+  run_glyph e = if bbox_ok (seac_path adx ady opsb opsa)
+                then COk (seac_path adx ady opsb opsa) else CErr EBboxOverflow.
+Proof. exact run_glyph_seac_spec. Qed.
+Print Assumptions C18_run_glyph_seac_spec.
+
 (* ------------------------------------------------------------------ *)
 (* Non-vacuity: concrete instances of the hypotheses, and the findings *)
 (* ------------------------------------------------------------------ *)
@@ -304,3 +398,68 @@ Example ex_cff2_long_hvcurveto :
   exists p, run_glyph (mkEnv Debug KCFF2 false [] [None] [] [[139; 139; 21] ++ repeat 140 52 ++ [31]] 0
                          CsISOAdobe false [0] []) = COk p /\ length p = 15%nat.
 Proof. eexists. split; [vm_compute; reflexivity|reflexivity]. Qed.
+
+(* seac through a charset in range form: .notdef, A B (34,1), grave acute (124,1), Aacute (171,0),
+   Agrave (174,0).  Aacute = 30 200 65 194 endchar: the accent `acute` (code 194, SID 125) is the
+   LAST glyph of its range; Agrave's accent `grave` (code 193, SID 124) is the first.  A glyph in a
+   single-element range (Aacute itself, SID 171) is found too. *)
+Definition ex_ranges : list (Z * Z) := [(34, 1); (124, 1); (171, 0); (174, 0)].
+Definition ex_acute_ops : list sop := [SRMove (of_int 10) (of_int 10); SRLine [(of_int 5, of_int 5)]].
+Definition ex_seac_font (gid : Z) : env :=
+  mkEnv Debug KCFF false [] [None] []
+        [[14]; [139; 139; 21; 239; 139; 5; 139; 239; 5; 14]; [14];
+         [159; 159; 21; 134; 144; 5; 14]; [149; 149; 21; 144; 144; 5; 14];
+         [169; 247; 92; 204; 247; 86; 14]; [169; 247; 92; 204; 247; 85; 14]]
+        gid (CsRanges ex_ranges) false [0] [].
+
+Example ex_range_lookup :
+  map (fun sid => gid_for_sid_in_ranges Debug ex_ranges sid CHARSET_FIRST_GID)
+      [33; 34; 35; 36; 123; 124; 125; 126; 170; 171; 172; 174] =
+  map (@COk (option Z))
+      [None; Some 1; Some 2; None; None; Some 3; Some 4; None; None; Some 5; None; Some 6].
+Proof. vm_compute. reflexivity. Qed.
+
+Example ex_seac_last_of_range :
+  run_glyph (ex_seac_font 5) =
+  COk [MoveTo 0 0; LineTo (of_int 100) 0; LineTo (of_int 100) (of_int 100); Close;
+       MoveTo (of_int 40) (of_int 210); LineTo (of_int 45) (of_int 215); Close].
+Proof. vm_compute. reflexivity. Qed.
+
+Example ex_seac_first_of_range :
+  run_glyph (ex_seac_font 6) =
+  COk [MoveTo 0 0; LineTo (of_int 100) 0; LineTo (of_int 100) (of_int 100); Close;
+       MoveTo (of_int 50) (of_int 220); LineTo (of_int 45) (of_int 225); Close].
+Proof. vm_compute. reflexivity. Qed.
+
+(* the hypotheses of C18_seac_spec hold for Aacute *)
+Example ex_charset_wf : charset_wf (CsRanges ex_ranges).
+Proof. split; [repeat constructor; cbn [fst snd]; lia|vm_compute; discriminate]. Qed.
+
+Example ex_names_last_of_range : names_glyph (ranges_sids ex_ranges) (nthZ STANDARD_ENCODING 194) 4.
+Proof.
+  right. split; [vm_compute; discriminate|]. split; [lia|]. split; [vm_compute; reflexivity|].
+  intros g' Hg'. assert (Hc : g' = 1 \/ g' = 2 \/ g' = 3) by lia.
+  destruct Hc as [-> | [-> | ->]]; vm_compute; discriminate.
+Qed.
+
+Example ex_glyph_bytes_acute : glyph_bytes None ex_acute_ops [149; 149; 21; 144; 144; 5; 14].
+Proof.
+  exists [], [149; 149; 21; 144; 144; 5]. split; [reflexivity|]. split; [constructor|]. split.
+  - unfold ex_acute_ops.
+    apply (enc_ops_cons (SRMove _ _) _ [[149]; [149]]).
+    { repeat constructor; exact (enc_int1 10 ltac:(lia)). }
+    apply (enc_ops_cons (SRLine _) [] [[144]; [144]] []).
+    { repeat constructor; exact (enc_int1 5 ltac:(lia)). }
+    constructor.
+  - unfold prog_wf, ex_acute_ops. cbn [ops_wf]. vm_compute. intuition congruence.
+Qed.
+
+(* ISOAdobe: iacute = dotlessi (code 245, SID and glyph 145) + acute (code 194, SID 125); fixed:
+   the code, not the SID, used to be compared with 228 *)
+Example ex_seac_iso_adobe_dotlessi :
+  run_glyph (mk_cff (repeat [14] 125 ++ [[159; 199; 21; 144; 144; 5; 14]] ++ repeat [14] 19
+                     ++ [[139; 139; 21; 149; 139; 139; 189; 5; 14]] ++ [[139; 139; 247; 137; 247; 86; 14]])
+                    [] None 146) =
+  COk [MoveTo 0 0; LineTo (of_int 10) 0; LineTo (of_int 10) (of_int 50); Close;
+       MoveTo (of_int 20) (of_int 60); LineTo (of_int 25) (of_int 65); Close].
+Proof. vm_compute. reflexivity. Qed.
